@@ -196,19 +196,6 @@ def n_asi_before_prefix_incdec(ref, src):
     return n
 
 
-def n_asi_before_regex(ref, src):
-    """semicolon inserted before a statement that starts with a regex literal, after a token
-    that implies division (break L / continue L / debugger / do-while `)`)"""
-    n = 0
-    for s in ref.semis:
-        if s['kind'] == 'inserted':
-            idx = _tok_index_at(ref, s['pos'])
-            if idx is not None and idx < len(ref.tokens) and ref.tokens[idx].type == 'regex':
-                src.gaps[idx] = ';' + src.gaps[idx]
-                n += 1
-    return n
-
-
 def n_ident_escape(ref, src):
     n = 0
     for i, k in enumerate(ref.tokens):
@@ -232,7 +219,6 @@ NEUTRALISERS = [
     ('c05.header_paren_markers', n_header_markers),
     ('c05.regex_after_funcdecl', n_regex_after_funcdecl),
     ('c04.asi_before_prefix_incdec', n_asi_before_prefix_incdec),
-    ('c04.asi_before_regex', n_asi_before_regex),
     ('c03.ident_unicode_escape', n_ident_escape),
 ]
 
